@@ -1289,6 +1289,29 @@ def absorbed_param_release(prog, fn, examined=None):
                     callers = caller_releases(prog, fn, [q["n"] for q in fn.params].index(pn))
                     if callers:
                         out.append((b, i, pn, r, callee, hit[0], hit[1], callers, sorted(fields)))
+    # the same through a store of the function's own: r->f = p (r a local object the function releases on its error exits)
+    locals_ = {l["n"] for l in fn.locals if "*" in l.get("t", "")}
+    for b, i, n in fn.nodes():
+        if n.get("k") != "asg" or n.get("op") != "=":
+            continue
+        l = strip(n["l"])
+        if l.get("k") != "mem" or not l.get("arrow") or not is_var(l.get("b")) or strip(l["b"]).get("n") not in locals_:
+            continue
+        rhs = fn.resolve(strip(n["r"]))
+        while isinstance(rhs, dict) and rhs.get("k") == "cast":
+            rhs = fn.resolve(strip(rhs["e"]))
+        pn = strip(rhs).get("n") if is_var(rhs) else None
+        if pn not in params:
+            continue
+        r, f = strip(l["b"])["n"], l["f"]
+        if examined is not None:
+            examined.append((fn.name, "(own store)", pn, r, [f]))
+        hit = _release_while_absorbed(prog, fn, b, i, sv, r, {f}, [], pn, states=(OKS, ERR))
+        if hit is None or not _releases_field(prog, hit[0], f):
+            continue
+        callers = caller_releases(prog, fn, [q["n"] for q in fn.params].index(pn))
+        if callers:
+            out.append((b, i, pn, r, "%s->%s = %s" % (r, f, pn), hit[0], hit[1], callers, [f]))
     return out
 
 
@@ -1303,13 +1326,12 @@ def _releases_field(prog, relname, field):
     return False
 
 
-def _release_while_absorbed(prog, fn, b0, i0, sv, r, fields, aliases=(), pname=None):
+def _release_while_absorbed(prog, fn, b0, i0, sv, r, fields, aliases=(), pname=None, states=(OKS,)):
     """Explore CFG x status from the success edge of the call at (b0, i0): is a release of r reached in the error state while
     none of r-><fields> has been reassigned and r itself has not been reassigned?  -> (release name, line) or None."""
     live = frozenset(fields)
-    start = (b0, i0 + 1, OKS, live)
-    seen = {start}
-    work = [start]
+    work = [(b0, i0 + 1, s0, live) for s0 in states]
+    seen = set(work)
     # the element after the call may be `res = <ref>`: status effect handled by the generic step below
     while work:
         b, i, s, fl = work.pop()
